@@ -23,18 +23,18 @@ PROPS = {
     'C04': P('proof', ['C04'], 'XYB forward: theorems + correspondence + f64 oracle'),
     'C05': P('proof', ['C05'], 'XYB round trip: theorems + correspondence + f64 oracle'),
     'C06': P('proof', ['C06'], 'primaries conversion: theorems (identical primaries bit-exact, evaluated matrices) + correspondence on all 14 primaries + f64 CIE oracle', partial=['accuracy against the exact CIE derivation over [-0.5,2]^3: not proved; correspondence + f64 oracle']),
-    'C07': P('proof', ['C07'], 'no UB: loop-safety invariants, constructor invariant, exp2 argument range for every bit pattern + outcome-class correspondence with hook assertions', partial=['exp2 to_int_unchecked argument range for every f32 bit pattern: theorem pending (Props/C18), covered by correspondence on special floats with the hook assertion']),
+    'C07': P('proof', ['C07'], 'no UB: loop-safety invariants, constructor invariant, exp2 argument range for every bit pattern + outcome-class correspondence with hook assertions'),
     'C08': P('proof', ['C08'], 'lossless code round trip: theorems + correspondence + exhaustive 8-bit search in the thorough tier'),
     'C09': P('proof', ['C09'], 'YUV->XYB->YUV budget: dims/config theorems, numeric budget partial (see partial) + correspondence + search', partial=['numeric budget max(1,0.015*(2^n-1)): not proved; correspondence + oracle']),
     'C10': P('proof', ['C10'], 'gamma->linear->gamma: theorems as listed + correspondence + search', partial=['round-trip bound for the 13 non-trivial curves over all floats of [0,1]: not proved; correspondence + exhaustive oracle (thorough)']),
     'C11': P('proof', ['C11'], 'pointwise / layout independence: loop invariants over all geometries + correspondence on sizes 1..64 + pointwise search'),
     'C12': P('proof', ['C12'], 'constructors: iff theorems + correspondence on the geometry stream + independent contract oracle'),
-    'C13': P('proof', ['C13'], 'totality and code validity: theorems + correspondence on special floats + search in optimised and checked builds', builds=['default', 'checked'], partial=['transfer-curve stage: exp2 never reaches to_int_unchecked outside its precondition for any bit pattern (Props/C18 pending); finite inputs give finite outputs: oracle only']),
+    'C13': P('proof', ['C13'], 'totality and code validity: theorems + correspondence on special floats + search in optimised and checked builds', builds=['default', 'checked'], partial=['finite inputs in [0,1]^3 give finite outputs: oracle only; overflow/debug-checked builds: usize arithmetic is modelled on Nat, the checked build is exercised by correspondence + oracle']),
     'C14': P('proof', ['C14'], 'support/error contract decided over all 3276 triples by `decide` on the model + exhaustive correspondence of all triples'),
     'C15': P('proof', ['C15'], 'Unspecified resolution: mpv table for all sizes, label theorems + exhaustive correspondence + content oracle'),
     'C16': P('proof', ['C16'], 'neutral axis and anchors: exhaustive/evaluated theorems + correspondence on every luma code + search', partial=['YUV->RGB grey axis proved exhaustively (native_decide); curve anchors in Props/C03; primaries/XYB/HSL grey clauses: correspondence + oracle only']),
     'C17': P('proof', ['C17'], 'HSL: range/anchor theorems + correspondence + f64 hexcone oracle'),
-    'C18': P('proof', ['C18'], 'fast math helpers: totality for every bit pattern, oddness, range theorems; accuracy theorems as listed + correspondence + search'),
+    'C18': P('proof', ['C18'], 'fast math helpers: totality for every bit pattern, oddness, range theorems; accuracy theorems as listed + correspondence + search', partial=['cbrtf 1 ulp / oddness, powf 2.5e-4+8e-6|y|, expf 1e-5 and its overflow/underflow ranges: not proved; correspondence + oracle (all 2^32 arguments in the thorough tier)']),
     'C19': P('proof', ['C19'], '3x3 algebra: exact structural theorems (transpose involution, ...) + accuracy as listed + correspondence f32/f64 + exact oracle', partial=['accuracy clauses (1e-5 relative, A*invert(A)=I within 1e-4): not proved; correspondence f32/f64 + exact oracle']),
     'C20': P('proof', ['C20'], 'build configuration: feature-resolution theorem on the regenerated manifests; every model theorem is stated for both fma values; correspondence and search under four builds',
              builds=['default', 'fma', 'nofast', 'checked'], builds_thorough=['default', 'fma', 'nofast', 'checked']),
